@@ -41,6 +41,33 @@ LOOPS = {
 }
 
 
+def apalache_pacing(rep):
+    """spec/apalache/Pacing.tla: the pacing arithmetic over unbounded integers; IndInv is inductive and implies Pacing (Apalache, SMT)"""
+    import subprocess
+    d = os.path.join(vlib.SPEC, "apalache")
+    out = os.path.join(vlib.WORK, "apalache")
+    os.makedirs(out, exist_ok=True)
+    steps = [("base case Init => IndInv", ["--init=Init", "--inv=IndInv", "--length=0"]),
+             ("inductive step IndInv /\\ Next => IndInv'", ["--init=IndInit", "--inv=IndInv", "--length=1"]),
+             ("IndInv => Pacing", ["--init=IndInit", "--inv=Pacing", "--length=0"])]
+    done = []
+    for what, args in steps:
+        try:
+            p = subprocess.run(["timeout", "600", "apalache-mc", "check", "--cinit=ConstInit", "--out-dir=" + out] + args + ["Pacing.tla"],
+                               cwd=d, capture_output=True, text=True)
+        except Exception as e:  # noqa
+            rep.assumptions.append("Apalache could not be run (%s); the unbounded pacing argument was skipped" % e)
+            return done
+        if "EXITCODE: OK" in p.stdout:
+            done.append(what)
+        elif "EXITCODE: ERROR (12)" in p.stdout:
+            rep.violation("Pacing.tla: Apalache refutes '%s'\n%s" % (what, p.stdout[-1500:]), {"apalache": p.stdout[-4000:]})
+        else:
+            rep.assumptions.append("Apalache ended abnormally on '%s' (exit %s); the unbounded pacing argument was skipped" % (what, p.returncode))
+            return done
+    return done
+
+
 def main(tier, seed):
     rep = Report(PROP, tier, seed, "model_checking")
     rng = random.Random(seed)
@@ -57,6 +84,7 @@ def main(tier, seed):
         log("[c16] %s: %d generated, %d distinct, %d histories, %.1fs" % (cfg, res.generated, res.distinct, len(hists), res.wall))
         return res, hists
 
+    rep.coverage["apalache_unbounded_pacing"] = apalache_pacing(rep)
     res, hists = explore("Heap_c16_%s.cfg" % tier, "c16")
     rep.coverage["states"] = res.distinct
     rep.coverage["transitions"] = res.generated
